@@ -8,6 +8,9 @@ Import ListNotations.
 Open Scope N_scope.
 
 (* ---------------------------------------------------------------- generic *)
+Lemma existsb_ext' {A} (f g : A -> bool) l : (forall x, f x = g x) -> existsb f l = existsb g l.
+Proof. intro H. induction l as [|x l IH]; simpl; auto. rewrite H, IH. reflexivity. Qed.
+
 Lemma filter_all {A} (l : list A) : filter (fun _ => true) l = l.
 Proof. induction l as [|x l IH]; simpl; congruence. Qed.
 
@@ -227,6 +230,27 @@ Proof.
   - simpl. rewrite !app_nil_r. reflexivity.
   - destruct ft; cbn [andb]; [|rewrite app_nil_r; reflexivity].
     destruct (forallb (fun c => is_foot c) (s_layout s)); cbn [negb]; [rewrite app_nil_r|]; reflexivity.
+Qed.
+
+(* ---------------------------------------------------------------- base.py: the two render methods *)
+Theorem render_footnote_ref_src_eq isdigit g target :
+  render_footnote_ref_src isdigit g target = render_footnote_ref isdigit g target.
+Proof.
+  unfold render_footnote_ref_src, render_footnote_ref, new_ref, ref_set_auto, ref_set_refname,
+         note_autofootnote_ref, note_footnote_ref, append_ref. cbv zeta.
+  destruct (isdigit target); reflexivity.
+Qed.
+
+Theorem render_footnote_reference_src_eq isdigit g target body :
+  render_footnote_reference_src isdigit g target body = render_footnote_reference isdigit g target body.
+Proof.
+  unfold render_footnote_reference_src, render_footnote_reference.
+  rewrite (existsb_ext' (fun footnote => orb (mem_str target (fn_names footnote)) (mem_str target (fn_dupnames footnote)))
+                       (fun f => str_eqb target (f_label f))).
+  2: { intro f. unfold fn_names, fn_dupnames. simpl. rewrite !orb_false_r. reflexivity. }
+  destruct (existsb _ _); [reflexivity|].
+  unfold new_fn, fn_add_name, fn_set_auto, note_footnote, note_autofootnote, note_explicit_target. cbv zeta.
+  destruct (isdigit target); reflexivity.
 Qed.
 
 (* ---------------------------------------------------------------- the pipeline with the regenerated transforms *)
